@@ -261,9 +261,9 @@ def dltyped(  # noqa: C901, PLR0915
                     bad_scope_provider=scope_provider,
                 )
 
-            for name in dltype_hints:
-                if name == return_key:
-                    # special handling of the return value, we don't want to evaluate the function before the arguments are checked
+            # signature order: __annotations__ lists positional-only parameters after the regular ones
+            for name in signature.parameters:
+                if name not in dltype_hints:
                     continue
 
                 if name in {"self", "cls"}:
